@@ -460,6 +460,7 @@ func runC17(r *Run, verifDir string) {
 	}
 
 	c17N9(r)
+	c17N11(r)
 	{
 		lc := &lexCtx{r: r, p: r.P, ord: map[string]int{}}
 		lc.l1Hex("C17.N10")
@@ -851,6 +852,57 @@ func c17N9(r *Run) {
 				}
 				return true
 			})
+		}
+	}
+}
+
+// c17N11: an unregistered name denotes nothing. The by-name lookups (EnumByName, BitmaskByStr) return a nil error
+// only with a value found in the registry: every return whose error is nil returns the first result of a comma-ok
+// map lookup (or, after the r5codec-style rewrite `enumsByName[tag][name]`, of the two-level lookup) and is reached
+// on the ok edge. A tolerance such as `if name == "" { return 0, nil }` makes the empty name denote 0 — Success in
+// the Result Status scope.
+func c17N11(r *Run) {
+	p := r.P
+	r.Rule("C17.N11", "by-name lookups return a nil error only with a value found in the registry", 2)
+	for _, name := range []string{"EnumByName", "BitmaskByStr"} {
+		fn := p.Func("ttlv", "", name)
+		key := "ttlv." + name + "/found-only"
+		if fn == nil {
+			r.Unk("C17.N11", key, token.NoPos, "anchor missing")
+			continue
+		}
+		bad, n := token.NoPos, 0
+		for _, b := range fn.Blocks {
+			ret, ok := b.Instrs[len(b.Instrs)-1].(*ssa.Return)
+			if !ok || len(ret.Results) != 2 || !isNilConst(ret.Results[1]) {
+				continue
+			}
+			n++
+			found := false
+			v := ret.Results[0]
+			if cv, isCv := v.(*ssa.Convert); isCv {
+				v = cv.X
+			}
+			if ex, isEx := v.(*ssa.Extract); isEx && ex.Index == 0 {
+				if lk, isLk := ex.Tuple.(*ssa.Lookup); isLk && lk.CommaOk {
+					for _, dc := range dominatingConds(b) {
+						if e2, ok := dc.cond.(*ssa.Extract); ok && e2.Tuple == ssa.Value(lk) && e2.Index == 1 && dc.outcome {
+							found = true
+						}
+					}
+				}
+			}
+			if !found {
+				bad = ret.Pos()
+			}
+		}
+		switch {
+		case bad.IsValid():
+			r.Bad("C17.N11", key, bad, "%s can return a nil error with a value that was not found in the registry (a default for an empty or unknown name): the XML/JSON readers and UnmarshalText then accept an unregistered name as that number — the empty name as 0, which is Success in the Result Status scope", name)
+		case n == 0:
+			r.Unk("C17.N11", key, fn.Pos(), "no successful return found")
+		default:
+			r.OK("C17.N11", key, fn.Pos(), "%d successful return(s), each the value of a comma-ok registry lookup on its ok edge", n)
 		}
 	}
 }
